@@ -6,7 +6,7 @@ TECH="deterministic simulation with fault injection: real lal in a synctest bubb
 NOTE="Trusted base: testing/synctest of go1.26.8 (fake clock, quiescence), the simweave overlay (lal's net/os/sync.Mutex/map-range/rand call sites redirected; all other code is the real code from /repo's working tree), the harness's independent codecs and oracles. Evidence over sampled seeds and schedules, not a proof."
 claimed={
  'C01':('exploration',"Seeded search over simulated runs of the real server (relay family: RTMP publishers incl. re-publishing, RTMP / HTTP-FLV / WS-FLV consumers joining and leaving at seeded instants, GOP-cache / merge-write configurations, seeded lock-grant / delivery / write interleavings and map orders). Per consumer the decoded messages must equal prologue ++ one contiguous run of the publisher's units (byte-identical payload, type, timestamp), complete up to the merge-write slack, no zero-length message, no spurious disconnect.","§7 C01"),
- 'C02':('exploration',"Same family with the join instant, header changes, audio-only / video-only shapes and re-publishing as primary dimensions. Oracle: sequence headers in force precede every frame with identical content, metadata before the first frame, first video frame is a key frame, replay equals a reference model of the GOP cache (most recent <= N GOPs, cut at the cap) for some admission point inside the window the event order allows, audio-only streams never hold a consumer back.","§7 C02"),
+ 'C02':('exploration',"Same family with the join instant, header changes, audio-only / video-only shapes and re-publishing as primary dimensions. Oracle: sequence headers in force precede every frame with identical content, metadata before the first frame, first video frame is a key frame, replay equals a reference model of the GOP cache (most recent <= N GOPs, cut at the cap) for some admission point inside the window the event order allows, audio-only streams never hold a consumer back. HTTP-TS / WS-TS and RTSP consumers of the same runs: PAT/PMT before any elementary-stream packet, SDP before any RTP, first video frame a key frame (with parameter sets in TS; RTSP with out_wait_key_frame_flag on).","§7 C02"),
  'C06':('exploration',"RTMP ingest to HTTP-TS / WS-TS consumers and HLS on the simulated disk; an independent MPEG-TS demuxer (PAT/PMT CRC, PES, PTS/DTS, Annex-B, ADTS) recovers frames which must equal the published NAL units / AAC frames in order, exactly once from the consumer's start, with DTS/PTS = 90*(ts[+cts]) minus one constant per track and ADTS consistent with the AudioSpecificConfig. RTSP players (interleaved TCP and simulated UDP, out_wait_key_frame on/off) are depacketised by an independent RFC 6184 / 7798 / 3640 depacketiser: same NAL units (AUD dropped) and AAC frames in order exactly once from the player's start, consecutive sequence numbers, RTP timestamp = ts x clock / 1000 within one tick, SDP codec / parameter sets / AudioSpecificConfig equal to what was published.","§7 C06"),
  'C11':('exploration',"Every HTTP-FLV body, WS-FLV frame sequence and FLV recording produced in relay runs (joins, leaves, resets at any byte, timestamps across 2^24, sizes at the WebSocket 125/126/65535/65536 boundaries) is parsed by an independent FLV / WebSocket parser; recordings are additionally read back with lal's own FlvFileReader and compared tag by tag with the published messages.","§7 C11"),
  'C16':('exploration',"Relay family with every output on (HLS on simfs, FLV+TS recording, stream hook), inputs ending by FIN / RST / kick / idle timeout (simulated 245 s) / Dispose, repeated re-publishing with changing codecs. Oracles: hook stopped exactly once per input, recordings closed and complete (pending audio flushed), last live playlist finalised and every created segment listed, a later publisher's consumers receive nothing attributable to a predecessor, empty groups disappear from the stat API, sockets / file handles / goroutines return to baseline.","§7 C16"),
